@@ -327,7 +327,7 @@ var requiredFeatures = []string{
 	"if", "else", "else-if", "switch", "switch-default", "switch-multi-value", "for:three", "for:cond", "for:inf", "for:range0", "for:range1", "for:range2", "for:in",
 	"break", "continue", "early-return", "return", "implicit-return", "defer", "try", "raise", "closure", "funcdecl", "default-param", "user-call",
 	"ternary", "if-expr", "switch-expr", "template", "pipe", "multi-decl", "multi-assign", "incdec", "list-index-assign:=", "map-index-assign", "attr-assign",
-	"shadowing", "for-post-expression", "slice-str", "slice-list", "index-list", "index-str", "in", "and-or-value", "list.map", "list.filter", "int**", "int%", "int<<", "cmp<", "cmp==", "neg", "not",
+	"shadowing", "for-post-expression", "for-init-expression", "recursion", "mutual-recursion", "slice-str", "slice-list", "index-list", "index-str", "in", "and-or-value", "list.map", "list.filter", "int**", "int%", "int<<", "cmp<", "cmp==", "neg", "not",
 }
 
 func diffOf(w gen.Outcome, g rz.Result) string { return rz.Diff(w, g) }
